@@ -145,6 +145,7 @@ MUTATIONS = [
     ("2349", r" I|RP", r"^(..)(....)(..)(.*)$", lambda m: [m.group(1) + "7FFF" + m.group(3) + m.group(4), m.group(1) + m.group(2) + "04" + m.group(4)]),
     ("0005", r"RP| I", r"^(....)(....)$", lambda m: [m.group(1) + "FFFF", m.group(1) + "0000"]),
     ("1FC9", r" I", r"^(.*)$", lambda m: ["00", "21"]),
+    ("0004", r" I|RP", r"^(....)(.{40})$", lambda m: [m.group(1) + "7F" * 20, m.group(1) + "00" * 20]),  # the 'no name' reply; an empty name
     ("3220", r"RP", r"^(..)(..)(..)(....)$", lambda m: [m.group(1) + m.group(2) + m.group(3) + v for v in ("FFFF", "0000", "7FFF")]),
 ]
 
@@ -196,11 +197,67 @@ def index_mutations(frame: str) -> list[str]:
     return out
 
 
+ROLES_000C = ("00", "04", "08", "0A", "0B", "0D", "0E", "0F", "11")
+
+
+def contradictions(frame: str) -> list[str]:
+    """Statements that contradict an RP|000C (to be delivered AFTER it, the original staying in the history): the same device
+    claimed for another zone / another role, and another device claimed for the same zone and role."""
+    f = frame.split(" ")
+    verb, code, pl = frame[:2], f[-3], f[-1]
+    if code != "000C" or verb != "RP" or len(pl) != 12 or pl[4:6] == "7F":
+        return []
+    idx, role, dev = pl[:2], pl[2:4], pl[6:12]
+    head = frame[: frame.rfind(" ")]
+    out = []
+    for i in ("00", "01", "02", "05"):
+        if i != idx and role not in ("0D", "0E", "0F"):
+            out.append(f"{head} {i}{role}00{dev}")
+    for r in ROLES_000C:
+        if r != role:
+            out.append(f"{head} {'00' if r in ('0D', '0E', '0F') else idx}{r}00{dev}")
+    if role == "0E":  # the hot-water valve also claimed as the heating valve (and vice versa)
+        out.append(f"{head} {'01' if idx == '00' else '00'}0E00{dev}")
+    other = f"{(int(dev, 16) + 1) & 0xFFFFFF:06X}"
+    out.append(f"{head} {idx}{role}00{other}")  # a different device of the same type
+    out.append(f"{head} {idx}{role}0088{int(dev, 16) & 0xFFFF:04X}")  # a round thermostat (34:) instead
+    return [g for g in dict.fromkeys(out) if g != frame]
+
+
+ELEMENT_LEN = {"0009": 6, "000A": 12, "2309": 6, "30C9": 6, "2249": 14, "22C9": 12, "3150": 4}
+
+
+def array_extensions(frame: str) -> list[str]:
+    """A single-element payload of an array-capable code grown into a two-element array whose second element carries another
+    zone / domain index (kept where the code's payload regex still accepts it): e.g. a controller's 3150 for FC plus zone 00."""
+    from ramses_tx.ramses import CODES_SCHEMA
+
+    f = frame.split(" ")
+    verb, code, pl = frame[:2], f[-3], f[-1]
+    L = ELEMENT_LEN.get(code)
+    rx = CODES_SCHEMA.get(code, {}).get(verb)
+    if not L or not rx or len(pl) != L or verb != " I":
+        return []
+    out = []
+    head = frame[: frame.rfind(" ")]
+    head = head[: head.rfind(" ") + 1]
+    for i in ("00", "01", "FC", "FA"):
+        if i != pl[:2]:
+            new = pl + i + pl[2:]
+            if re.match(rx, new):
+                out.append(f"{head}{len(new) // 2:03d} {new}")
+    return out
+
+
 def single_edits(lines: list, splice_from: list[list] | None = None, fields: bool = True):
     """Yield (label, position of the edit, history) for every single edit of a history."""
     n = len(lines)
     kinds_seen: set = set()
     for i in range(n):
+        if fields:  # contradicting statements about who belongs where, inserted after the original one
+            d0, r0, fr0 = lines[i]
+            for k, g in enumerate(contradictions(fr0)):
+                yield f"contra@{i}.{k}", i + 1, lines[: i + 1] + restamp([(d0, r0, g)], lines, i + 1) + lines[i + 1 :]
         if fields:  # index re-addressing: at the first occurrence of every (verb, code, sender type, index class) of the history
             d, r, fr = lines[i]
             ff = fr.split()
@@ -209,6 +266,8 @@ def single_edits(lines: list, splice_from: list[list] | None = None, fields: boo
                 kinds_seen.add(kind)
                 for k, g in enumerate(index_mutations(fr)):
                     yield f"idx@{i}.{k}", i, lines[:i] + [(d, r, g)] + lines[i + 1 :]
+                for k, g in enumerate(array_extensions(fr)):
+                    yield f"arr@{i}.{k}", i, lines[:i] + [(d, r, g)] + lines[i + 1 :]
         yield f"del@{i}", i, lines[:i] + lines[i + 1 :]
         yield f"dup@{i}", i, lines[: i + 1] + [lines[i]] + lines[i + 1 :]
         if i + 1 < n:
@@ -223,6 +282,20 @@ def single_edits(lines: list, splice_from: list[list] | None = None, fields: boo
             # the neighbour's packets arrive now (not at their recorded date): stamp them just after line i-1
             yield f"splice{si}@{i}", i, lines[:i] + restamp(dig, lines, i) + lines[i:]
     if splice_from is not None:
+        # a neighbour's array broadcast (same code, other zone/circuit indexes, other values) heard 20 ms before ours: the library
+        # joins the halves of a long array when they are consecutive - never arrays of two different senders
+        for i in range(n):
+            d, r, fr = lines[i]
+            ff = fr.split()
+            if fr[:2] == " I" and ff[-3] in ("000A", "22C9", "2309", "30C9") and len(ff[-1]) >= 12 and ff[2] == ff[4]:
+                L = {"000A": 12, "22C9": 12, "2309": 6, "30C9": 6}[ff[-3]]
+                pl = ff[-1]
+                if len(pl) % L:
+                    continue
+                shifted = "".join(f"{(int(pl[k:k + 2], 16) + 2) % 12:02X}" + pl[k + 2 : k + L] for k in range(0, len(pl), L))
+                nb = neighbour((d, r, fr[: fr.rfind(" ") + 1] + shifted))
+                t0 = dt.fromisoformat(d) - td(milliseconds=20)
+                yield f"nbarray@{i}", i, lines[:i] + [(t0.isoformat(timespec="microseconds"), r, nb[2])] + lines[i:]
         for i in range(0, n + 1):
             # (packets that carry device ids inside the payload would name OUR devices: leave those out of the clone)
             seg = [neighbour(x) for x in lines[max(0, i - 20) : i + 20] if x[2].split()[-3] not in ("000C", "1FC9", "0418", "0016", "1FD4")]
